@@ -23,3 +23,183 @@ package edf
 //@   trusted
 //@   modifies b.B, elems(b.B)
 //@   ensures len(b.B) >= old(len(b.B)) && cap(b.B) >= len(b.B)
+
+// C11: leaf codecs against a common byte-level spec. be16/be32/be64 read big-endian words; each
+// encoder states which bytes it appends as a function of the value it is given, each decoder what it
+// returns as a function of the bytes it is given and how many it consumes; the round trip is then a
+// lemma over the two spec sides (bit-precise).
+//@ spec func be16(b0 uint8, b1 uint8) uint16 = uint16(b0) << 8 | uint16(b1)
+//@ spec func be32(b0 uint8, b1 uint8, b2 uint8, b3 uint8) uint32 = uint32(b0) << 24 | uint32(b1) << 16 | uint32(b2) << 8 | uint32(b3)
+
+//@ spec func be64(b0 uint8, b1 uint8, b2 uint8, b3 uint8, b4 uint8, b5 uint8, b6 uint8, b7 uint8) uint64 = uint64(b0) << 56 | uint64(b1) << 48 | uint64(b2) << 40 | uint64(b3) << 32 | uint64(b4) << 24 | uint64(b5) << 16 | uint64(b6) << 8 | uint64(b7)
+
+//@ func encodeInt
+//@   props C11
+//@   requires b != nil && state != nil
+//@   modifies b.B, elems(b.B)
+//@   ensures [type_tag_then_big_endian_value] result == nil && len(b.B) == old(len(b.B)) + (state.encodeType ? 9 : 8) && (state.encodeType ==> b.B[old(len(b.B))] == edtInt) && be64(b.B[len(b.B) - 8], b.B[len(b.B) - 7], b.B[len(b.B) - 6], b.B[len(b.B) - 5], b.B[len(b.B) - 4], b.B[len(b.B) - 3], b.B[len(b.B) - 2], b.B[len(b.B) - 1]) == uint64(rvInt(value))
+//@   ensures [earlier_bytes_kept] forall i int :: 0 <= i && i < old(len(b.B)) ==> b.B[i] == old(b.B[i])
+//@ func decodeInt
+//@   props C11 C16
+//@   requires state != nil
+//@   ensures [reads_what_the_encoder_writes] value == nil && state.decodeType && len(packet) >= 9 && packet[0] == edtInt ==> result.2 == nil && result.0 != nil && rvInt(*result.0) == int64(int(be64(packet[1], packet[2], packet[3], packet[4], packet[5], packet[6], packet[7], packet[8]))) && result.1 == packet[9:]
+//@   ensures [reads_what_the_encoder_writes_untagged] value == nil && !state.decodeType && len(packet) >= 8 ==> result.2 == nil && result.0 != nil && rvInt(*result.0) == int64(int(be64(packet[0], packet[1], packet[2], packet[3], packet[4], packet[5], packet[6], packet[7]))) && result.1 == packet[8:]
+//@   ensures [short_or_mistagged_input_is_an_error] (state.decodeType ? (len(packet) < 9 || packet[0] != edtInt) : len(packet) < 8) ==> result.2 != nil
+//@ lemma int_round_trip props C11: forall x int64 :: int64(int(uint64(x))) == x
+
+//@ func encodeInt8
+//@   props C11
+//@   requires b != nil && state != nil
+//@   modifies b.B, elems(b.B)
+//@   ensures [type_tag_then_big_endian_value] result == nil && len(b.B) == old(len(b.B)) + (state.encodeType ? 2 : 1) && (state.encodeType ==> b.B[old(len(b.B))] == edtInt8) && b.B[len(b.B) - 1] == uint8(rvInt(value))
+//@   ensures [earlier_bytes_kept] forall i int :: 0 <= i && i < old(len(b.B)) ==> b.B[i] == old(b.B[i])
+//@ func decodeInt8
+//@   props C11 C16
+//@   requires state != nil
+//@   ensures [reads_what_the_encoder_writes] value == nil && state.decodeType && len(packet) >= 2 && packet[0] == edtInt8 ==> result.2 == nil && result.0 != nil && rvInt(*result.0) == int64(int8(packet[1])) && result.1 == packet[2:]
+//@   ensures [reads_what_the_encoder_writes_untagged] value == nil && !state.decodeType && len(packet) >= 1 ==> result.2 == nil && result.0 != nil && rvInt(*result.0) == int64(int8(packet[0])) && result.1 == packet[1:]
+//@   ensures [short_or_mistagged_input_is_an_error] (state.decodeType ? (len(packet) < 2 || packet[0] != edtInt8) : len(packet) < 1) ==> result.2 != nil
+//@ lemma int8_round_trip props C11: forall x int64 :: 0 - 128 <= x && x <= 127 ==> int64(int8(uint8(x))) == x
+
+//@ func encodeInt16
+//@   props C11
+//@   requires b != nil && state != nil
+//@   modifies b.B, elems(b.B)
+//@   ensures [type_tag_then_big_endian_value] result == nil && len(b.B) == old(len(b.B)) + (state.encodeType ? 3 : 2) && (state.encodeType ==> b.B[old(len(b.B))] == edtInt16) && be16(b.B[len(b.B) - 2], b.B[len(b.B) - 1]) == uint16(rvInt(value))
+//@   ensures [earlier_bytes_kept] forall i int :: 0 <= i && i < old(len(b.B)) ==> b.B[i] == old(b.B[i])
+//@ func decodeInt16
+//@   props C11 C16
+//@   requires state != nil
+//@   ensures [reads_what_the_encoder_writes] value == nil && state.decodeType && len(packet) >= 3 && packet[0] == edtInt16 ==> result.2 == nil && result.0 != nil && rvInt(*result.0) == int64(int16(be16(packet[1], packet[2]))) && result.1 == packet[3:]
+//@   ensures [reads_what_the_encoder_writes_untagged] value == nil && !state.decodeType && len(packet) >= 2 ==> result.2 == nil && result.0 != nil && rvInt(*result.0) == int64(int16(be16(packet[0], packet[1]))) && result.1 == packet[2:]
+//@   ensures [short_or_mistagged_input_is_an_error] (state.decodeType ? (len(packet) < 3 || packet[0] != edtInt16) : len(packet) < 2) ==> result.2 != nil
+//@ lemma int16_round_trip props C11: forall x int64 :: 0 - 32768 <= x && x <= 32767 ==> int64(int16(uint16(x))) == x
+
+//@ func encodeInt32
+//@   props C11
+//@   requires b != nil && state != nil
+//@   modifies b.B, elems(b.B)
+//@   ensures [type_tag_then_big_endian_value] result == nil && len(b.B) == old(len(b.B)) + (state.encodeType ? 5 : 4) && (state.encodeType ==> b.B[old(len(b.B))] == edtInt32) && be32(b.B[len(b.B) - 4], b.B[len(b.B) - 3], b.B[len(b.B) - 2], b.B[len(b.B) - 1]) == uint32(rvInt(value))
+//@   ensures [earlier_bytes_kept] forall i int :: 0 <= i && i < old(len(b.B)) ==> b.B[i] == old(b.B[i])
+//@ func decodeInt32
+//@   props C11 C16
+//@   requires state != nil
+//@   ensures [reads_what_the_encoder_writes] value == nil && state.decodeType && len(packet) >= 5 && packet[0] == edtInt32 ==> result.2 == nil && result.0 != nil && rvInt(*result.0) == int64(int32(be32(packet[1], packet[2], packet[3], packet[4]))) && result.1 == packet[5:]
+//@   ensures [reads_what_the_encoder_writes_untagged] value == nil && !state.decodeType && len(packet) >= 4 ==> result.2 == nil && result.0 != nil && rvInt(*result.0) == int64(int32(be32(packet[0], packet[1], packet[2], packet[3]))) && result.1 == packet[4:]
+//@   ensures [short_or_mistagged_input_is_an_error] (state.decodeType ? (len(packet) < 5 || packet[0] != edtInt32) : len(packet) < 4) ==> result.2 != nil
+//@ lemma int32_round_trip props C11: forall x int64 :: 0 - 2147483648 <= x && x <= 2147483647 ==> int64(int32(uint32(x))) == x
+
+//@ func encodeInt64
+//@   props C11
+//@   requires b != nil && state != nil
+//@   modifies b.B, elems(b.B)
+//@   ensures [type_tag_then_big_endian_value] result == nil && len(b.B) == old(len(b.B)) + (state.encodeType ? 9 : 8) && (state.encodeType ==> b.B[old(len(b.B))] == edtInt64) && be64(b.B[len(b.B) - 8], b.B[len(b.B) - 7], b.B[len(b.B) - 6], b.B[len(b.B) - 5], b.B[len(b.B) - 4], b.B[len(b.B) - 3], b.B[len(b.B) - 2], b.B[len(b.B) - 1]) == uint64(rvInt(value))
+//@   ensures [earlier_bytes_kept] forall i int :: 0 <= i && i < old(len(b.B)) ==> b.B[i] == old(b.B[i])
+//@ func decodeInt64
+//@   props C11 C16
+//@   requires state != nil
+//@   ensures [reads_what_the_encoder_writes] value == nil && state.decodeType && len(packet) >= 9 && packet[0] == edtInt64 ==> result.2 == nil && result.0 != nil && rvInt(*result.0) == int64(int64(be64(packet[1], packet[2], packet[3], packet[4], packet[5], packet[6], packet[7], packet[8]))) && result.1 == packet[9:]
+//@   ensures [reads_what_the_encoder_writes_untagged] value == nil && !state.decodeType && len(packet) >= 8 ==> result.2 == nil && result.0 != nil && rvInt(*result.0) == int64(int64(be64(packet[0], packet[1], packet[2], packet[3], packet[4], packet[5], packet[6], packet[7]))) && result.1 == packet[8:]
+//@   ensures [short_or_mistagged_input_is_an_error] (state.decodeType ? (len(packet) < 9 || packet[0] != edtInt64) : len(packet) < 8) ==> result.2 != nil
+//@ lemma int64_round_trip props C11: forall x int64 :: int64(int64(uint64(x))) == x
+
+//@ func encodeUint
+//@   props C11
+//@   requires b != nil && state != nil
+//@   modifies b.B, elems(b.B)
+//@   ensures [type_tag_then_big_endian_value] result == nil && len(b.B) == old(len(b.B)) + (state.encodeType ? 9 : 8) && (state.encodeType ==> b.B[old(len(b.B))] == edtUint) && be64(b.B[len(b.B) - 8], b.B[len(b.B) - 7], b.B[len(b.B) - 6], b.B[len(b.B) - 5], b.B[len(b.B) - 4], b.B[len(b.B) - 3], b.B[len(b.B) - 2], b.B[len(b.B) - 1]) == uint64(rvUint(value))
+//@   ensures [earlier_bytes_kept] forall i int :: 0 <= i && i < old(len(b.B)) ==> b.B[i] == old(b.B[i])
+//@ func decodeUint
+//@   props C11 C16
+//@   requires state != nil
+//@   ensures [reads_what_the_encoder_writes] value == nil && state.decodeType && len(packet) >= 9 && packet[0] == edtUint ==> result.2 == nil && result.0 != nil && rvUint(*result.0) == uint64(uint(be64(packet[1], packet[2], packet[3], packet[4], packet[5], packet[6], packet[7], packet[8]))) && result.1 == packet[9:]
+//@   ensures [reads_what_the_encoder_writes_untagged] value == nil && !state.decodeType && len(packet) >= 8 ==> result.2 == nil && result.0 != nil && rvUint(*result.0) == uint64(uint(be64(packet[0], packet[1], packet[2], packet[3], packet[4], packet[5], packet[6], packet[7]))) && result.1 == packet[8:]
+//@   ensures [short_or_mistagged_input_is_an_error] (state.decodeType ? (len(packet) < 9 || packet[0] != edtUint) : len(packet) < 8) ==> result.2 != nil
+//@ lemma uint_round_trip props C11: forall x uint64 :: uint64(uint(uint64(x))) == x
+
+//@ func encodeUint8
+//@   props C11
+//@   requires b != nil && state != nil
+//@   modifies b.B, elems(b.B)
+//@   ensures [type_tag_then_big_endian_value] result == nil && len(b.B) == old(len(b.B)) + (state.encodeType ? 2 : 1) && (state.encodeType ==> b.B[old(len(b.B))] == edtUint8) && b.B[len(b.B) - 1] == uint8(rvUint(value))
+//@   ensures [earlier_bytes_kept] forall i int :: 0 <= i && i < old(len(b.B)) ==> b.B[i] == old(b.B[i])
+//@ func decodeUint8
+//@   props C11 C16
+//@   requires state != nil
+//@   ensures [reads_what_the_encoder_writes] value == nil && state.decodeType && len(packet) >= 2 && packet[0] == edtUint8 ==> result.2 == nil && result.0 != nil && rvUint(*result.0) == uint64(uint8(packet[1])) && result.1 == packet[2:]
+//@   ensures [reads_what_the_encoder_writes_untagged] value == nil && !state.decodeType && len(packet) >= 1 ==> result.2 == nil && result.0 != nil && rvUint(*result.0) == uint64(uint8(packet[0])) && result.1 == packet[1:]
+//@   ensures [short_or_mistagged_input_is_an_error] (state.decodeType ? (len(packet) < 2 || packet[0] != edtUint8) : len(packet) < 1) ==> result.2 != nil
+//@ lemma uint8_round_trip props C11: forall x uint64 :: x <= 255 ==> uint64(uint8(uint8(x))) == x
+
+//@ func encodeUint16
+//@   props C11
+//@   requires b != nil && state != nil
+//@   modifies b.B, elems(b.B)
+//@   ensures [type_tag_then_big_endian_value] result == nil && len(b.B) == old(len(b.B)) + (state.encodeType ? 3 : 2) && (state.encodeType ==> b.B[old(len(b.B))] == edtUint16) && be16(b.B[len(b.B) - 2], b.B[len(b.B) - 1]) == uint16(rvUint(value))
+//@   ensures [earlier_bytes_kept] forall i int :: 0 <= i && i < old(len(b.B)) ==> b.B[i] == old(b.B[i])
+//@ func decodeUint16
+//@   props C11 C16
+//@   requires state != nil
+//@   ensures [reads_what_the_encoder_writes] value == nil && state.decodeType && len(packet) >= 3 && packet[0] == edtUint16 ==> result.2 == nil && result.0 != nil && rvUint(*result.0) == uint64(uint16(be16(packet[1], packet[2]))) && result.1 == packet[3:]
+//@   ensures [reads_what_the_encoder_writes_untagged] value == nil && !state.decodeType && len(packet) >= 2 ==> result.2 == nil && result.0 != nil && rvUint(*result.0) == uint64(uint16(be16(packet[0], packet[1]))) && result.1 == packet[2:]
+//@   ensures [short_or_mistagged_input_is_an_error] (state.decodeType ? (len(packet) < 3 || packet[0] != edtUint16) : len(packet) < 2) ==> result.2 != nil
+//@ lemma uint16_round_trip props C11: forall x uint64 :: x <= 65535 ==> uint64(uint16(uint16(x))) == x
+
+//@ func encodeUint32
+//@   props C11
+//@   requires b != nil && state != nil
+//@   modifies b.B, elems(b.B)
+//@   ensures [type_tag_then_big_endian_value] result == nil && len(b.B) == old(len(b.B)) + (state.encodeType ? 5 : 4) && (state.encodeType ==> b.B[old(len(b.B))] == edtUint32) && be32(b.B[len(b.B) - 4], b.B[len(b.B) - 3], b.B[len(b.B) - 2], b.B[len(b.B) - 1]) == uint32(rvUint(value))
+//@   ensures [earlier_bytes_kept] forall i int :: 0 <= i && i < old(len(b.B)) ==> b.B[i] == old(b.B[i])
+//@ func decodeUint32
+//@   props C11 C16
+//@   requires state != nil
+//@   ensures [reads_what_the_encoder_writes] value == nil && state.decodeType && len(packet) >= 5 && packet[0] == edtUint32 ==> result.2 == nil && result.0 != nil && rvUint(*result.0) == uint64(uint32(be32(packet[1], packet[2], packet[3], packet[4]))) && result.1 == packet[5:]
+//@   ensures [reads_what_the_encoder_writes_untagged] value == nil && !state.decodeType && len(packet) >= 4 ==> result.2 == nil && result.0 != nil && rvUint(*result.0) == uint64(uint32(be32(packet[0], packet[1], packet[2], packet[3]))) && result.1 == packet[4:]
+//@   ensures [short_or_mistagged_input_is_an_error] (state.decodeType ? (len(packet) < 5 || packet[0] != edtUint32) : len(packet) < 4) ==> result.2 != nil
+//@ lemma uint32_round_trip props C11: forall x uint64 :: x <= 4294967295 ==> uint64(uint32(uint32(x))) == x
+
+//@ func encodeUint64
+//@   props C11
+//@   requires b != nil && state != nil
+//@   modifies b.B, elems(b.B)
+//@   ensures [type_tag_then_big_endian_value] result == nil && len(b.B) == old(len(b.B)) + (state.encodeType ? 9 : 8) && (state.encodeType ==> b.B[old(len(b.B))] == edtUint64) && be64(b.B[len(b.B) - 8], b.B[len(b.B) - 7], b.B[len(b.B) - 6], b.B[len(b.B) - 5], b.B[len(b.B) - 4], b.B[len(b.B) - 3], b.B[len(b.B) - 2], b.B[len(b.B) - 1]) == uint64(rvUint(value))
+//@   ensures [earlier_bytes_kept] forall i int :: 0 <= i && i < old(len(b.B)) ==> b.B[i] == old(b.B[i])
+//@ func decodeUint64
+//@   props C11 C16
+//@   requires state != nil
+//@   ensures [reads_what_the_encoder_writes] value == nil && state.decodeType && len(packet) >= 9 && packet[0] == edtUint64 ==> result.2 == nil && result.0 != nil && rvUint(*result.0) == be64(packet[1], packet[2], packet[3], packet[4], packet[5], packet[6], packet[7], packet[8]) && result.1 == packet[9:]
+//@   ensures [reads_what_the_encoder_writes_untagged] value == nil && !state.decodeType && len(packet) >= 8 ==> result.2 == nil && result.0 != nil && rvUint(*result.0) == be64(packet[0], packet[1], packet[2], packet[3], packet[4], packet[5], packet[6], packet[7]) && result.1 == packet[8:]
+//@   ensures [short_or_mistagged_input_is_an_error] (state.decodeType ? (len(packet) < 9 || packet[0] != edtUint64) : len(packet) < 8) ==> result.2 != nil
+//@ lemma uint64_round_trip props C11: forall x uint64 :: uint64(uint64(uint64(x))) == x
+
+//@ func encodeBool
+//@   props C11
+//@   requires b != nil && state != nil
+//@   modifies b.B, elems(b.B)
+//@   ensures [type_tag_then_one_or_zero] result == nil && len(b.B) == old(len(b.B)) + (state.encodeType ? 2 : 1) && (state.encodeType ==> b.B[old(len(b.B))] == edtBool) && b.B[len(b.B) - 1] == (rvBool(value) ? uint8(1) : uint8(0))
+//@   ensures [earlier_bytes_kept] forall i int :: 0 <= i && i < old(len(b.B)) ==> b.B[i] == old(b.B[i])
+//@ func decodeBool
+//@   props C11 C16
+//@   requires state != nil
+//@   ensures [reads_what_the_encoder_writes] value == nil && state.decodeType && len(packet) >= 2 && packet[0] == edtBool ==> result.2 == nil && result.0 != nil && rvBool(*result.0) == (packet[1] == 1) && result.1 == packet[2:]
+//@   ensures [reads_what_the_encoder_writes_untagged] value == nil && !state.decodeType && len(packet) >= 1 ==> result.2 == nil && result.0 != nil && rvBool(*result.0) == (packet[0] == 1) && result.1 == packet[1:]
+//@   ensures [short_or_mistagged_input_is_an_error] (state.decodeType ? (len(packet) < 2 || packet[0] != edtBool) : len(packet) < 1) ==> result.2 != nil
+//@ lemma bool_round_trip props C11: forall x bool :: ((x ? uint8(1) : uint8(0)) == 1) == x
+
+// strings: optional tag, 16-bit big-endian length, then the bytes; a string longer than 65535 bytes
+// is rejected when encoding (nothing is appended)
+//@ func encodeString
+//@   props C11
+//@   requires b != nil && state != nil
+//@   modifies b.B, elems(b.B)
+//@   ensures [too_long_is_rejected_without_output] len(rvStr(value)) > 65535 ==> result == ErrStringTooLong && len(b.B) == old(len(b.B))
+//@   ensures [tag_and_length] len(rvStr(value)) <= 65535 ==> result == nil && len(b.B) == old(len(b.B)) + (state.encodeType ? 3 : 2) + len(rvStr(value)) && (state.encodeType ==> b.B[old(len(b.B))] == edtString) && int(be16(b.B[old(len(b.B)) + (state.encodeType ? 1 : 0)], b.B[old(len(b.B)) + (state.encodeType ? 2 : 1)])) == len(rvStr(value))
+//@   ensures [then_the_bytes_of_the_string] len(rvStr(value)) <= 65535 ==> (forall i int :: 0 <= i && i < len(rvStr(value)) ==> b.B[old(len(b.B)) + (state.encodeType ? 3 : 2) + i] == rvStr(value)[i])
+//@   ensures [earlier_bytes_kept] forall i int :: 0 <= i && i < old(len(b.B)) ==> b.B[i] == old(b.B[i])
+//@ func decodeString
+//@   props C11 C16
+//@   requires state != nil
+//@   ensures [reads_what_the_encoder_writes] value == nil && state.decodeType && len(packet) >= 3 && packet[0] == edtString && len(packet) >= 3 + int(be16(packet[1], packet[2])) ==> result.2 == nil && result.0 != nil && bytes_eq(rvStr(*result.0), packet[3:3 + int(be16(packet[1], packet[2]))]) && result.1 == packet[3 + int(be16(packet[1], packet[2])):]
+//@   ensures [reads_what_the_encoder_writes_untagged] value == nil && !state.decodeType && len(packet) >= 2 && len(packet) >= 2 + int(be16(packet[0], packet[1])) ==> result.2 == nil && result.0 != nil && bytes_eq(rvStr(*result.0), packet[2:2 + int(be16(packet[0], packet[1]))]) && result.1 == packet[2 + int(be16(packet[0], packet[1])):]
+//@   ensures [truncated_input_is_an_error] !state.decodeType && (len(packet) < 2 || len(packet) < 2 + int(be16(packet[0], packet[1]))) ==> result.2 != nil
